@@ -6,7 +6,7 @@ certain time periods (daily, weekly, etc.). Supports both upper and lower limits
 """
 
 from datetime import datetime, timedelta
-from typing import TYPE_CHECKING, Optional, Union
+from typing import TYPE_CHECKING, Any, Optional, Union
 
 if TYPE_CHECKING:
     from scriptplan.core.project import Project
@@ -267,6 +267,10 @@ class Limits:
     def copy(self) -> "Limits":
         """Return a deep copy of this Limits collection."""
         return Limits(self)
+
+    def __deepcopy__(self, memo: dict[int, Any]) -> "Limits":
+        """Inherited copies get counters of their own but refer to the same project and resources."""
+        return self.copy()
 
     def setProject(self, project: "Project") -> None:
         """Set the project reference."""
